@@ -202,6 +202,19 @@ impl TaskManager {
 	}
 }
 
+impl Drop for TaskManager {
+	/// Lets the background tasks exit when the manager goes away without `stop()`
+	/// (a store whose open failed half-way, or a store dropped without close).
+	/// The tasks own a reference to the store core; left parked on their
+	/// notifiers they would keep it, its open files and the directory lock
+	/// alive for the rest of the process.
+	fn drop(&mut self) {
+		self.stop_flag.store(true, Ordering::SeqCst);
+		self.memtable_notify.notify_one();
+		self.level_notify.notify_one();
+	}
+}
+
 #[cfg(test)]
 mod tests {
 	use std::sync::atomic::{AtomicBool, AtomicUsize, Ordering};
